@@ -41,8 +41,7 @@ def run(tier, seed, mutant=None, only_validate=False):
         groups = {}
         for r in runs:
             groups.setdefault((r["np"], r["nc"]), []).append({"id": r["id"], "ev": r["ev"]})
-        # (DelTs = TRUE accepts both behaviours of the finally clause; what is demanded is the invariant, reported per occurrence)
-        glist = [("blocking emit np=%d nc=%d" % k, dict(NP=k[0], NC=k[1], Faults=True, DelTs=True), ts) for k, ts in groups.items()]
+        glist = [("blocking emit np=%d nc=%d" % k, dict(NP=k[0], NC=k[1], Faults=True, DelTs=False), ts) for k, ts in groups.items()]
         reached, problems = amod.validate_groups(work, "ThreadSyncTrace", glist, timeout=1800)
         unsafe = getattr(amod.validate_groups, "unsafe", {})
         res.traces = len(runs)
